@@ -140,3 +140,91 @@ func scenarioOptions() {
 		session.Milliseconds(), rebalance.Milliseconds(), rete.Milliseconds(), backoff.Milliseconds(), hbIv.Milliseconds(), watchIv.Milliseconds(), elapsed.Milliseconds(),
 		get("gid"), get("topics"), get("protocols"), get("session"), get("rebalance"), get("retention"), get("start"), bo, hb, watch)
 }
+
+// scenarioDefaults: the options a program does NOT set.  "Heartbeats are sent at the configured interval … failed joins are
+// retried after the configured back-off": with nothing configured, the configured value is the documented default
+// (ConsumerGroupConfig field comments: 3s heartbeat, 30s session, 30s rebalance, 5s join back-off, 5s watch interval,
+// retention -1 = broker default, FirstOffset, balancers [range, roundrobin], 5s time-out).  Observed (a) on the config
+// ConsumerGroupConfig.Validate leaves behind and (b) through a Reader that sets only Brokers/GroupID/Topic: what its
+// JoinGroup / OffsetCommit requests carry and where an uncommitted partition starts.
+//
+//	defaults\t<observed…>
+func scenarioDefaults() {
+	cfg := kafka.ConsumerGroupConfig{ID: "grp-d", Brokers: []string{"b:9092"}, Topics: []string{"t"}}
+	verr := cfg.Validate()
+	var bal []string
+	for _, b := range cfg.GroupBalancers {
+		bal = append(bal, b.ProtocolName())
+	}
+	mock, log := gm.New(), gm.NewLog()
+	kafka.VerifGroupResetConnIDs()
+	kafka.VerifStart()
+	kafka.VerifSetSink(log.Sink)
+	kafka.VerifSetGroupWire(false)
+	var mu sync.Mutex
+	obs := map[string]string{}
+	mock.Auto = func(c kafka.VerifCoordCall) (kafka.VerifCoordReply, bool) {
+		mu.Lock()
+		defer mu.Unlock()
+		switch c.Method {
+		case "findCoordinator":
+			return kafka.VerifCoordReply{Host: "coord", Port: 9092}, true
+		case "joinGroup":
+			obs["protocols"] = strings.Join(c.Protocols, ",")
+			obs["session"] = fmt.Sprint(c.SessionTimeoutMs)
+			obs["rebalance"] = fmt.Sprint(c.RebalanceTimeoutMs)
+			return kafka.VerifCoordReply{MemberID: "m1", GenerationID: 1, Protocol: "range", LeaderID: "other"}, true
+		case "syncGroup":
+			return kafka.VerifCoordReply{Assignments: map[string][]int32{"t": {0}}}, true
+		case "offsetFetch":
+			return kafka.VerifCoordReply{Committed: []kafka.VerifGroupOffset{{Topic: "t", Partition: 0, Offset: -1}}}, true
+		case "readPartitions":
+			obs["watch-polled"] = "1" // WatchPartitionChanges is off by default: no watcher may poll
+			return kafka.VerifCoordReply{Parts: []kafka.Partition{{Topic: "t", ID: 0}}}, true
+		case "offsetCommit":
+			obs["retention"] = fmt.Sprint(c.RetentionMs)
+			return kafka.VerifCoordReply{}, true
+		}
+		return kafka.VerifCoordReply{}, true
+	}
+	kafka.VerifSetGroupHandler(mock.Handle)
+	r := kafka.NewReader(kafka.ReaderConfig{
+		Brokers: []string{"b:9092"}, GroupID: "grp-d", Topic: "t",
+		Dialer: &kafka.Dialer{DialFunc: func(ctx context.Context, network, addr string) (net.Conn, error) {
+			return nil, errors.New("no broker in this harness")
+		}},
+	})
+	if log.WaitCount(gm.Kind("R.Subscribe"), 1, 5*time.Second) {
+		for _, e := range log.Snapshot() {
+			if e.Kind == "R.Subscribe" {
+				obs["start"] = e.Args[1]
+			}
+		}
+		ctx, cancel := context.WithTimeout(context.Background(), 2*time.Second)
+		r.CommitMessages(ctx, kafka.Message{Topic: "t", Partition: 0, Offset: 7})
+		cancel()
+	}
+	r.Close()
+	kafka.VerifSetSink(nil)
+	kafka.VerifSetGroupHandler(nil)
+	kafka.VerifStop()
+	mu.Lock()
+	defer mu.Unlock()
+	get := func(k string) string {
+		if v, ok := obs[k]; ok && v != "" {
+			return v
+		}
+		return "?"
+	}
+	fmt.Fprintf(out, "defaults\tvalidate=%v hb=%d session=%d rebalance=%d backoff=%d watchiv=%d retention=%d start=%d timeout=%d balancers=%s watch=%v "+
+		"r.protocols=%s r.session=%s r.rebalance=%s r.retention=%s r.start=%s r.watchpolled=%s\n",
+		verr == nil, cfg.HeartbeatInterval.Milliseconds(), cfg.SessionTimeout.Milliseconds(), cfg.RebalanceTimeout.Milliseconds(),
+		cfg.JoinGroupBackoff.Milliseconds(), cfg.PartitionWatchInterval.Milliseconds(), cfg.RetentionTime.Milliseconds(), cfg.StartOffset,
+		cfg.Timeout.Milliseconds(), strings.Join(bal, ","), cfg.WatchPartitionChanges,
+		get("protocols"), get("session"), get("rebalance"), get("retention"), get("start"), func() string {
+			if obs["watch-polled"] == "1" {
+				return "yes"
+			}
+			return "no"
+		}())
+}
